@@ -394,7 +394,7 @@ class Qube(object):
         if Qube.is_one_false(units):
             self._units_ = None
         else:
-            self._units_ = units
+            self._units_ = Units.as_units(units)
 
         # The object is read-only if the values array is read-only
         self._readonly_ = Qube._array_is_readonly(self._values_)
